@@ -59,6 +59,9 @@ func litForName(name string) string {
 	case "Untyped":
 		return "7"
 	}
+	if strings.Contains(name, "::") {
+		return name + ".make" // namespaced configured classes come with a factory
+	}
 	return name + ".new"
 }
 
